@@ -3,35 +3,66 @@
 #ifndef TETL_CMATH_LGAMMA_HPP
 #define TETL_CMATH_LGAMMA_HPP
 
+#include <etl/_config/all.hpp>
+
 #include <etl/_3rd_party/gcem/gcem.hpp>
 #include <etl/_concepts/integral.hpp>
+#include <etl/_type_traits/is_constant_evaluated.hpp>
+#include <etl/_type_traits/is_same.hpp>
 
 namespace etl {
 
-/// Computes the natural logarithm of the absolute value of the gamma function of arg.
-/// \details https://en.cppreference.com/w/cpp/numeric/math/lgamma
-/// \ingroup cmath
-[[nodiscard]] constexpr auto lgamma(float arg) noexcept -> float { return etl::detail::gcem::lgamma(arg); }
+namespace detail {
+
+template <typename T>
+[[nodiscard]] constexpr auto lgamma(T arg) noexcept -> T
+{
+    if (not is_constant_evaluated()) {
+        if constexpr (is_same_v<T, float>) {
+#if __has_builtin(__builtin_lgammaf)
+            return __builtin_lgammaf(arg);
+#endif
+        }
+        if constexpr (is_same_v<T, double>) {
+#if __has_builtin(__builtin_lgamma)
+            return __builtin_lgamma(arg);
+#endif
+        }
+        if constexpr (is_same_v<T, long double>) {
+#if __has_builtin(__builtin_lgammal)
+            return __builtin_lgammal(arg);
+#endif
+        }
+    }
+    return detail::gcem::lgamma(arg);
+}
+
+} // namespace detail
 
 /// Computes the natural logarithm of the absolute value of the gamma function of arg.
 /// \details https://en.cppreference.com/w/cpp/numeric/math/lgamma
 /// \ingroup cmath
-[[nodiscard]] constexpr auto lgammaf(float arg) noexcept -> float { return etl::detail::gcem::lgamma(arg); }
+[[nodiscard]] constexpr auto lgamma(float arg) noexcept -> float { return etl::detail::lgamma(arg); }
 
 /// Computes the natural logarithm of the absolute value of the gamma function of arg.
 /// \details https://en.cppreference.com/w/cpp/numeric/math/lgamma
 /// \ingroup cmath
-[[nodiscard]] constexpr auto lgamma(double arg) noexcept -> double { return etl::detail::gcem::lgamma(arg); }
+[[nodiscard]] constexpr auto lgammaf(float arg) noexcept -> float { return etl::detail::lgamma(arg); }
 
 /// Computes the natural logarithm of the absolute value of the gamma function of arg.
 /// \details https://en.cppreference.com/w/cpp/numeric/math/lgamma
 /// \ingroup cmath
-[[nodiscard]] constexpr auto lgamma(long double arg) noexcept -> long double { return etl::detail::gcem::lgamma(arg); }
+[[nodiscard]] constexpr auto lgamma(double arg) noexcept -> double { return etl::detail::lgamma(arg); }
 
 /// Computes the natural logarithm of the absolute value of the gamma function of arg.
 /// \details https://en.cppreference.com/w/cpp/numeric/math/lgamma
 /// \ingroup cmath
-[[nodiscard]] constexpr auto lgammal(long double arg) noexcept -> long double { return etl::detail::gcem::lgamma(arg); }
+[[nodiscard]] constexpr auto lgamma(long double arg) noexcept -> long double { return etl::detail::lgamma(arg); }
+
+/// Computes the natural logarithm of the absolute value of the gamma function of arg.
+/// \details https://en.cppreference.com/w/cpp/numeric/math/lgamma
+/// \ingroup cmath
+[[nodiscard]] constexpr auto lgammal(long double arg) noexcept -> long double { return etl::detail::lgamma(arg); }
 
 /// Computes the natural logarithm of the absolute value of the gamma function of arg.
 /// \details https://en.cppreference.com/w/cpp/numeric/math/lgamma
@@ -39,7 +70,7 @@ namespace etl {
 template <integral T>
 [[nodiscard]] constexpr auto lgamma(T arg) noexcept -> double
 {
-    return etl::detail::gcem::lgamma(static_cast<double>(arg));
+    return etl::detail::lgamma(static_cast<double>(arg));
 }
 
 } // namespace etl
